@@ -602,6 +602,128 @@ def run_shard(rec, tier, seed, shard, nshards):
                         shutil.rmtree(root)
     finally:
         drv.close()
+    if tier == "thorough":
+        subprocess_scenarios(rec, rng, shard, nshards)
+
+
+# ----------------------------------------------------------------------------- subprocess variant (thorough)
+class LogSim:
+    """what judge() needs, rebuilt from the stub's launch log of real subprocess runs"""
+
+    def __init__(self, root, cfg, log):
+        self.root, self.cfg = root, cfg
+        self.outdir = os.path.join(root, "out")
+        self.log = log
+        self.deletions = []
+
+    @property
+    def launches(self):
+        out = []
+        if os.path.exists(self.log):
+            for line in open(self.log):
+                e = json.loads(line)
+                e["step"] = tuple(e["step"])
+                out.append(e)
+        return out
+
+    completed_steps = Sim.completed_steps
+
+
+def subprocess_scenarios(rec, rng, shard, nshards):
+    """The real script in a real interpreter, the executable stub on PATH, kills by SIGKILL at stub failpoints."""
+    import subprocess
+
+    vf_root = os.path.dirname(os.path.dirname(os.path.dirname(os.path.abspath(__file__))))
+    stub_dir = os.path.join(vf_root, "vf", "stubs")
+    script = os.path.join(repoimport.REPO, "nextflow", "scripts", "batchie.py")
+    cfgs = [
+        {"mode": "retrospective", "plates": 4, "batch": 2, "n_chains": 1, "n_chunks": 1, "order_seed": 5},
+        {"mode": "prospective", "plates": 6, "batch": 2, "invocations": 2, "n_chains": 1, "n_chunks": 1, "order_seed": 5},
+        {"mode": "retrospective", "plates": 5, "batch": 3, "n_chains": 2, "n_chunks": 1, "order_seed": 6},
+        {"mode": "prospective", "plates": 6, "batch": 3, "invocations": 2, "n_chains": 1, "n_chunks": 2, "order_seed": 6},
+    ]
+
+    def invoke(root, cfg, kill_at):
+        env = dict(os.environ)
+        env.update(VF_ROOT=vf_root, VF_C19_CFG=json.dumps(cfg), VF_C19_LOG=os.path.join(root, "launch.log"), VF_C19_COUNTER=os.path.join(root, "hits"), VF_C19_ROOT=root, VF_C19_KILL_AT=str(kill_at or 0), VF_C19_REPO=repoimport.REPO, PATH=stub_dir + os.pathsep + env.get("PATH", ""))
+        if os.path.exists(env["VF_C19_COUNTER"]):
+            os.remove(env["VF_C19_COUNTER"])
+        p = subprocess.run([sys.executable, "-B", script, "--mode", cfg["mode"], "--screen", os.path.join(root, "input.screen.h5"), "--batch-size", str(cfg["batch"]), "--outdir", os.path.join(root, "out"), "--n_chains", str(cfg["n_chains"])], env=env, stdout=subprocess.PIPE, stderr=subprocess.PIPE, timeout=300)
+        hits = int(open(env["VF_C19_COUNTER"]).read()) if os.path.exists(env["VF_C19_COUNTER"]) else 0
+        err = p.stderr.decode("utf-8", "replace")
+        if p.returncode == 0:
+            return ("exit0", None), hits
+        if p.returncode == -9:
+            return ("crashed", "SIGKILL"), hits
+        if "Consider deleting this directory" in err:
+            return ("operator", err.strip().splitlines()[-1].split(": ")[-1].strip()), hits
+        return ("error", err.strip().splitlines()[-1][:300] if err.strip() else "rc=%d" % p.returncode), hits
+
+    def fresh(tmp, name, cfg):
+        root = os.path.join(tmp, name)
+        os.makedirs(root)
+        with open(os.path.join(root, "input.screen.h5"), "w") as f:
+            json.dump({"unobserved": list(range(cfg["plates"])), "lineage": "root%d" % cfg["plates"]}, f)
+        return root
+
+    with kit.scratch_dir("vf-c19p-", fast=True) as tmp:
+        for ci, cfg in enumerate(cfgs):
+            n_inv = 1 if cfg["mode"] == "retrospective" else cfg["invocations"]
+            extra = 0 if cfg["mode"] == "retrospective" else 2
+            root = fresh(tmp, "ref", cfg)
+            hits = []
+            target = None
+            ok = True
+            sim = LogSim(root, cfg, os.path.join(root, "launch.log"))
+            for i in range(n_inv + extra):
+                ev, h = invoke(root, cfg, 0)
+                if ev[0] != "exit0":
+                    rec.violation("C19/%s/crash-free-run-fails" % cfg["mode"], "subprocess reference run ends with %r" % (ev,), {"cfg": cfg})
+                    ok = False
+                    break
+                if i < n_inv:
+                    hits.append(h)
+                if i == n_inv - 1:
+                    target = sorted(sim.completed_steps())
+            if not ok:
+                shutil.rmtree(root)
+                continue
+            ref = {"steps": {}, "tree": dict(tree(sim.outdir, orchestration_only=True)), "completed": target, "completed_ext": sorted(sim.completed_steps())}
+            for l in sim.launches:
+                ref["steps"].setdefault(l["step"], l)
+            shutil.rmtree(root)
+            points = [(i, k) for i in range(n_inv) for k in range(1, hits[i] + 1)]
+            for (inv_i, k) in points[shard::nshards]:
+                root = fresh(tmp, "s", cfg)
+                sim = LogSim(root, cfg, os.path.join(root, "launch.log"))
+                events = []
+                plan = [0] * inv_i + [k]
+                for it in range(6 * len(target) + 12):
+                    ev, _h = invoke(root, cfg, plan.pop(0) if plan else 0)
+                    events.append(ev)
+                    if ev[0] == "crashed":
+                        continue
+                    if ev[0] == "operator":
+                        d = ev[1]
+                        comp = sim.completed_steps()
+                        sim.deletions.append({"path": os.path.relpath(d, sim.outdir), "by": "operator", "completed_at_that_time": sorted(comp), "names_completed_step": bool(os.path.basename(d).startswith("plate_") and step_of(d) in comp)})
+                        if os.path.isdir(d):
+                            shutil.rmtree(d)
+                            continue
+                        events.append(("operator-dir-missing", d))
+                        break
+                    if ev[0] == "error":
+                        break
+                    if not plan and (cfg["mode"] == "retrospective" or len(sim.completed_steps()) >= len(target)):
+                        break
+                else:
+                    events.append(("no-progress", None))
+                rec.case(("subprocess", json.dumps(cfg, sort_keys=True), inv_i, k))
+                rec.count("subprocess_kill_scenarios")
+                tag = next((l.get("killed_at") for l in sim.launches if l.get("killed_at")), None)
+                w = {"cfg": cfg, "via": "real subprocess + SIGKILL", "interrupted_invocation": inv_i, "stub_failpoint_hit": k, "failpoint": tag, "events": [list(e) for e in events[:12]], "launches": [[list(l["step"]), l["completed"], l["selection"]] for l in sim.launches][:20]}
+                judge(rec, cfg, ref, sim, events, "SIGKILL at %s (stub hit %d of invocation %d)" % (tag, k, inv_i + 1), w)
+                shutil.rmtree(root)
 
 
 def coverage_extra(tier, counters):
